@@ -87,6 +87,15 @@ def near_miss_names(rng, d):
 LATIN1_COMPONENTS = {"loader", "isa", "parse", "abilities", "mkproc", "pipeline", "recase", "hwload"}
 
 
+def big(rng, hi, big_hi, p=0.03, lo=0):
+    """a size: usually uniform in lo..hi; with probability p log-uniform in hi+1..big_hi (size stress: long
+    operand lists, long programs, large processors, long strings)"""
+    if big_hi > hi and rng.random() < p:
+        import math
+        return min(big_hi, int(math.exp(rng.uniform(math.log(hi + 1), math.log(big_hi + 1)))))
+    return rng.randint(lo, hi)
+
+
 def rand_dag(rng, n, pedge=0.35, shape=None):
     """edges over range(n) respecting a random topological order"""
     order = list(range(n))
@@ -133,9 +142,15 @@ def rand_dag(rng, n, pedge=0.35, shape=None):
     return es
 
 
-def rand_desc(rng, nmax=6, ncap_max=3, wmax=3, case_noise=True, mem_p=0.3):
-    n = rng.randint(1, nmax)
-    names = rng.sample(rng.choice(NAME_POOLS), n)
+def rand_desc(rng, nmax=6, ncap_max=3, wmax=3, case_noise=True, mem_p=0.3, nbig=16):
+    n = big(rng, nmax, max(nmax, nbig), 0.02, lo=1)
+    if n > 10:
+        names = [rng.choice("uUxY") + str(i) for i in range(n)]
+        rng.shuffle(names)
+    else:
+        names = rng.sample(rng.choice(NAME_POOLS), n)
+    if rng.random() < 0.02:
+        wmax = max(wmax, 9)
     caps = CAPS[: rng.randint(1, ncap_max)]
     us = []
     for nm in names:
@@ -270,9 +285,9 @@ def valid_desc(rng, nmax=6, **kw):
     return d
 
 
-def rand_prog(rng, caps, nmax=8, nreg=None, bad=0.0, selfdep=0.3):
+def rand_prog(rng, caps, nmax=8, nreg=None, bad=0.0, selfdep=0.3, nbig=40):
     """list of (sources tuple sorted unique, destination, capability)"""
-    n = rng.randint(0, nmax)
+    n = big(rng, nmax, max(nmax, nbig), 0.02)
     nreg = nreg or rng.randint(2, 5)
     regs = [f"R{i}" for i in range(nreg)]
     prog = []
@@ -402,7 +417,7 @@ def rand_instr_list(rng, n=None, mnems=None, regs=None):
     mnems = mnems or ["ADD", "SUB", "LW", "mul", "Beq"]
     out = []
     for _ in range(n):
-        k = rng.randint(1, 5)
+        k = big(rng, 5, 150, 0.03, lo=1)
         ops = [recase(rng, ident(rng, regs), 0.3) for _ in range(k)]
         out.append([recase(rng, ident(rng, mnems), 0.3), ops])
     return out
@@ -431,9 +446,10 @@ def render_program(rng, instrs, corrupt=None):
 
 
 def rand_isa(rng, caps, n=None, defect=0.15):
-    n = rng.randint(0, 8) if n is None else n
+    n = big(rng, 8, 60, 0.03) if n is None else n
     mn = ["ADD", "SUB", "LW", "SW", "MUL", "DIV", "BEQ", "NOP", "and", "Or"]
     rng.shuffle(mn)
+    mn += [f"OP{i}" for i in range(max(0, n - len(mn)))]
     spec = []
     for m in mn[:n]:
         c = rng.choice(caps) if caps else "ALU"
